@@ -80,7 +80,8 @@ def build(root, slabs, header=None, sim_name=SIM_NAME, z_mock=Z_MOCK, mt=False, 
 
     slabs: list of {'halos': {field: rows}, 'particles': {field: rows}} (rows: list/array; vector fields n x 3).
     *_overrides: {field: (dtype, shape)} to change the stored schema (e.g. {'randoms_gaus_vrms': ('f8', ())} writes the
-    legacy one-number-per-halo velocity deviates); *_drop: fields to leave out of the file.
+    legacy one-number-per-halo velocity deviates); a slab dict may carry its own 'halo_overrides' / 'part_overrides'
+    (files of one set may differ); *_drop: fields to leave out of the file.
     Returns {'sim_params', 'HOD_params', 'clustering_params'} with default tracer LRG (ELG if mt)."""
     import os
     import asdf
@@ -102,10 +103,15 @@ def build(root, slabs, header=None, sim_name=SIM_NAME, z_mock=Z_MOCK, mt=False, 
         nh = len(hc['id'])
         npart = len(pc['halo_id']) if 'halo_id' in pc else 0
         with h5py.File(os.path.join(subs, hname), 'w') as f:
-            f.create_dataset('halos', data=_compound(HALO_FIELDS, hc, nh, halo_overrides, halo_drop))
+            f.create_dataset('halos', data=_compound(HALO_FIELDS, hc, nh, s.get('halo_overrides', halo_overrides),
+                                                     halo_drop))
         with h5py.File(os.path.join(subs, pname), 'w') as f:
-            f.create_dataset('particles', data=_compound(PART_FIELDS, pc, npart, part_overrides, part_drop))
+            f.create_dataset('particles', data=_compound(PART_FIELDS, pc, npart,
+                                                         s.get('part_overrides', part_overrides), part_drop))
     return config(root, sim_name, z_mock, mt=mt, want_ranks=withranks)
+
+
+LEGACY_VELDEV = {'randoms_gaus_vrms': ('f8', ()), 'randoms_exp': ('f8', ())}   # halo_overrides of a legacy file
 
 
 def config(root, sim_name=SIM_NAME, z_mock=Z_MOCK, mt=False, want_ranks=False, want_AB=False, want_shear=False,
